@@ -9,20 +9,25 @@ namespace Sio.Sched
 
 /-- position class of task `t` with respect to namespace `n`:
     1 = in the gate window (passed `check`, before `mark`), 2 = marked, handler not yet invoked
-    (`send`/`handler`), 3 = handler invoked, before `manager.disconnect` (`cleanup`), 0 = anything
-    else (including: working on another namespace). -/
+    (`send`/`handler`), 3 = handler invoked, before `manager.disconnect` (`cleanup`), 4 = a refusing
+    CONNECT that is marked and has not yet sent the refusal (`send`, kind `refuse`), 5 = refusal sent,
+    before `manager.disconnect` (`cleanup`, kind `refuse`), 0 = anything else (including: working on
+    another namespace). -/
 def cls (n : Ns) (t : Task) : Nat :=
   match t.todo with
   | m :: _ =>
     if m = n then
       match t.pc with
       | .mark => 1
-      | .send => 2
+      | .send => if t.kind = .refuse then 4 else 2
       | .handler => 2
-      | .cleanup => 3
+      | .cleanup => if t.kind = .refuse then 5 else 3
       | _ => 0
     else 0
   | [] => 0
+
+/-- number of refusals among the tasks that passed the gate of a namespace -/
+def nref (l : List Kind) : Nat := l.count .refuse
 
 def cntL (l : List Task) (n : Ns) (k : Nat) : Nat := l.countP (fun t => cls n t == k)
 
@@ -31,23 +36,48 @@ def cnt (st : St) (n : Ns) (k : Nat) : Nat := cntL st.tasks n k
 @[simp] theorem cnt_mk (ts : List Task) (sh : Shared) (n : Ns) (k : Nat) :
     cnt { tasks := ts, sh := sh } n k = cntL ts n k := rfl
 
-/-- the five phases of a (sid, namespace); `m0` = the sid was connected to it at the start -/
-def Phase (m0 mem : Bool) (pend calls w a b : Nat) : Prop :=
-  (m0 = true ∧ mem = true ∧ pend = 0 ∧ calls = 0 ∧ w ≤ 1 ∧ a = 0 ∧ b = 0) ∨
-  (m0 = true ∧ mem = true ∧ pend = 1 ∧ calls = 0 ∧ w = 0 ∧ a = 1 ∧ b = 0) ∨
-  (m0 = true ∧ mem = true ∧ pend = 1 ∧ calls = 1 ∧ w = 0 ∧ a = 0 ∧ b = 1) ∨
-  (m0 = true ∧ mem = false ∧ pend = 0 ∧ calls = 1 ∧ w = 0 ∧ a = 0 ∧ b = 0) ∨
-  (m0 = false ∧ mem = false ∧ pend = 0 ∧ calls = 0 ∧ w = 0 ∧ a = 0 ∧ b = 0)
+/-- the phases of a (sid, namespace); `m0` = the sid was connected to it at the start.
+    Arguments: membership, pending count, handler calls, refusals sent, number of tasks that passed
+    the gate (`nm`), number of refusing CONNECTs among them (`nr`), and the number of tasks in each
+    position class 1…5 (`w a b r s`). -/
+def Phase (m0 mem : Bool) (pend calls ref nm nr w a b r s : Nat) : Prop :=
+  -- untouched
+  (m0 = true ∧ mem = true ∧ pend = 0 ∧ calls = 0 ∧ ref = 0 ∧ nm = 0 ∧ nr = 0 ∧
+    w ≤ 1 ∧ a = 0 ∧ b = 0 ∧ r = 0 ∧ s = 0) ∨
+  -- marked by a terminating cause, handler not yet invoked
+  (m0 = true ∧ mem = true ∧ pend = 1 ∧ calls = 0 ∧ ref = 0 ∧ nm = 1 ∧ nr = 0 ∧
+    w = 0 ∧ a = 1 ∧ b = 0 ∧ r = 0 ∧ s = 0) ∨
+  -- handler invoked
+  (m0 = true ∧ mem = true ∧ pend = 1 ∧ calls = 1 ∧ ref = 0 ∧ nm = 1 ∧ nr = 0 ∧
+    w = 0 ∧ a = 0 ∧ b = 1 ∧ r = 0 ∧ s = 0) ∨
+  -- ended by a terminating cause
+  (m0 = true ∧ mem = false ∧ pend = 0 ∧ calls = 1 ∧ ref = 0 ∧ nm = 1 ∧ nr = 0 ∧
+    w = 0 ∧ a = 0 ∧ b = 0 ∧ r = 0 ∧ s = 0) ∨
+  -- never connected
+  (m0 = false ∧ mem = false ∧ pend = 0 ∧ calls = 0 ∧ ref = 0 ∧ nm = 0 ∧ nr = 0 ∧
+    w = 0 ∧ a = 0 ∧ b = 0 ∧ r = 0 ∧ s = 0) ∨
+  -- marked by the refusing CONNECT, refusal not yet sent
+  (m0 = true ∧ mem = true ∧ pend = 1 ∧ calls = 0 ∧ ref = 0 ∧ nm = 1 ∧ nr = 1 ∧
+    w = 0 ∧ a = 0 ∧ b = 0 ∧ r = 1 ∧ s = 0) ∨
+  -- refusal sent
+  (m0 = true ∧ mem = true ∧ pend = 1 ∧ calls = 0 ∧ ref = 1 ∧ nm = 1 ∧ nr = 1 ∧
+    w = 0 ∧ a = 0 ∧ b = 0 ∧ r = 0 ∧ s = 1) ∨
+  -- ended by the refusal: the disconnect handler was never invoked and never will be
+  (m0 = true ∧ mem = false ∧ pend = 0 ∧ calls = 0 ∧ ref = 1 ∧ nm = 1 ∧ nr = 1 ∧
+    w = 0 ∧ a = 0 ∧ b = 0 ∧ r = 0 ∧ s = 0)
 
-/-- The invariant ("four phases" of a connected sid — untouched, marked, handler ran, ended — plus
-    the trivial one of a namespace the sid was never connected to): nobody raised, nothing was
-    swallowed, and for every namespace the shared variables and the number of tasks at each
-    position are in one of the phases. -/
+/-- The invariant ("four phases" of a connected sid — untouched, marked, handler ran, ended —, the
+    three of a session that its own connect handler refuses — marked, refusal sent, ended without
+    handler — plus the trivial one of a namespace the sid was never connected to): nobody raised,
+    nothing was swallowed, and for every namespace the shared variables and the number of tasks at
+    each position are in one of the phases. -/
 structure Inv (m0 : Ns → Bool) (st : St) : Prop where
   noRaise : ∀ t ∈ st.tasks, t.pc ≠ .raised
   noContained : st.sh.contained = 0
-  phase : ∀ n, Phase (m0 n) (st.sh.mem n) (st.sh.pend n) (ncalls st n)
-            (cnt st n 1) (cnt st n 2) (cnt st n 3)
+  refNoHandler : ∀ t ∈ st.tasks, t.kind = .refuse → t.pc ≠ .handler
+  phase : ∀ n, Phase (m0 n) (st.sh.mem n) (st.sh.pend n) (ncalls st n) (st.sh.refusals n)
+            (st.sh.marks n).length (nref (st.sh.marks n))
+            (cnt st n 1) (cnt st n 2) (cnt st n 3) (cnt st n 4) (cnt st n 5)
 
 def noMark (st : St) : Prop := ∀ t ∈ st.tasks, t.pc ≠ .mark
 
@@ -66,6 +96,20 @@ theorem cnt_set (st : St) (i : Nat) (t t' : Task) (h : st.tasks[i]? = some t)
   have := countP_set_some (fun u => cls n u == k) st.tasks i t t' h
   simpa [cnt, cntL] using this
 
+theorem cnt_set5 (st : St) (i : Nat) (t t' : Task) (h : st.tasks[i]? = some t) (n : Ns) :
+    (cntL (st.tasks.set i t') n 1 + (if cls n t = 1 then 1 else 0)
+      = cnt st n 1 + (if cls n t' = 1 then 1 else 0)) ∧
+    (cntL (st.tasks.set i t') n 2 + (if cls n t = 2 then 1 else 0)
+      = cnt st n 2 + (if cls n t' = 2 then 1 else 0)) ∧
+    (cntL (st.tasks.set i t') n 3 + (if cls n t = 3 then 1 else 0)
+      = cnt st n 3 + (if cls n t' = 3 then 1 else 0)) ∧
+    (cntL (st.tasks.set i t') n 4 + (if cls n t = 4 then 1 else 0)
+      = cnt st n 4 + (if cls n t' = 4 then 1 else 0)) ∧
+    (cntL (st.tasks.set i t') n 5 + (if cls n t = 5 then 1 else 0)
+      = cnt st n 5 + (if cls n t' = 5 then 1 else 0)) :=
+  ⟨cnt_set st i t t' h n 1, cnt_set st i t t' h n 2, cnt_set st i t t' h n 3,
+   cnt_set st i t t' h n 4, cnt_set st i t t' h n 5⟩
+
 theorem mem_of_getElem? {α : Type} {l : List α} {i : Nat} {t : α} (h : l[i]? = some t) : t ∈ l :=
   List.mem_of_getElem? h
 
@@ -73,6 +117,11 @@ theorem cnt_pos (st : St) (i : Nat) (t : Task) (h : st.tasks[i]? = some t) (n : 
     1 ≤ cnt st n (cls n t) := by
   unfold cnt cntL
   exact List.countP_pos_iff.mpr ⟨t, mem_of_getElem? h, by simp⟩
+
+theorem cnt_pos_of_mem (st : St) (t : Task) (h : t ∈ st.tasks) (n : Ns) :
+    1 ≤ cnt st n (cls n t) := by
+  unfold cnt cntL
+  exact List.countP_pos_iff.mpr ⟨t, h, by simp⟩
 
 theorem mem_set_cases {α : Type} {l : List α} {i : Nat} {x u : α} (h : u ∈ l.set i x) :
     u ∈ l ∨ u = x := by
@@ -96,24 +145,24 @@ theorem cls_advance (n : Ns) (t : Task) (rest : List Ns) : cls n (advance t rest
   | nil => simp
   | cons m r => simp
 
-theorem cls_pc (n : Ns) (t : Task) (p : Pc) (rest : List Ns) (h : t.todo = n :: rest) :
-    cls n { t with pc := p } =
-      match p with | .mark => 1 | .send => 2 | .handler => 2 | .cleanup => 3 | _ => 0 := by
-  simp [cls, h]
-
 theorem cls_pc_other (n m : Ns) (t : Task) (p : Pc) (rest : List Ns) (h : t.todo = m :: rest)
     (hne : n ≠ m) : cls n { t with pc := p } = 0 := by
   simp [cls, h, Ne.symm hne]
 
-theorem cls_afterMark (n : Ns) (t : Task) (rest : List Ns) (h : t.todo = n :: rest) :
-    cls n { t with pc := afterMark t.kind } = 2 := by
-  cases hk : t.kind <;> simp [cls, h, afterMark]
-
 theorem afterMark_ne_raised (k : Kind) : afterMark k ≠ .raised := by cases k <;> simp [afterMark]
 theorem afterMark_ne_mark (k : Kind) : afterMark k ≠ .mark := by cases k <;> simp [afterMark]
 
+theorem chNext_ne (k : Kind) : chNext k ≠ .raised ∧ chNext k ≠ .mark ∧ chNext k ≠ .send ∧
+    chNext k ≠ .handler ∧ chNext k ≠ .cleanup := by cases k <;> simp [chNext]
+
 theorem advance_pc_ne_raised (t : Task) (rest : List Ns) : (advance t rest).pc ≠ .raised := by
   unfold advance; split <;> simp
+
+theorem advance_pc_ne_handler (t : Task) (rest : List Ns) : (advance t rest).pc ≠ .handler := by
+  unfold advance; split <;> simp
+
+theorem afterMark_refuse (k : Kind) : k = .refuse → afterMark k ≠ .handler := by
+  intro h; subst h; simp [afterMark]
 
 theorem advance_pc_ne_mark (t : Task) (rest : List Ns) : (advance t rest).pc ≠ .mark := by
   unfold advance; split <;> simp
@@ -122,31 +171,37 @@ theorem advance_pc_ne_mark (t : Task) (rest : List Ns) : (advance t rest).pc ≠
     namespace `n` only -/
 theorem inv_update (m0 : Ns → Bool) (st : St) (i : Nat) (t t' : Task) (sh' : Shared) (n : Ns)
     (hI : Inv m0 st) (hi : st.tasks[i]? = some t)
-    (hpc : t'.pc ≠ .raised) (hcont : sh'.contained = 0)
+    (hpc : t'.pc ≠ .raised) (hrh : t'.kind = .refuse → t'.pc ≠ .handler)
+    (hcont : sh'.contained = 0)
     (hcls : ∀ n', n' ≠ n → cls n' t = 0 ∧ cls n' t' = 0)
     (hsh : ∀ n', n' ≠ n → sh'.mem n' = st.sh.mem n' ∧ sh'.pend n' = st.sh.pend n' ∧
-              sh'.calls n' = st.sh.calls n')
-    (hn : Phase (m0 n) (sh'.mem n) (sh'.pend n) (sh'.calls n).length
+              sh'.calls n' = st.sh.calls n' ∧ sh'.refusals n' = st.sh.refusals n' ∧
+              sh'.marks n' = st.sh.marks n')
+    (hn : Phase (m0 n) (sh'.mem n) (sh'.pend n) (sh'.calls n).length (sh'.refusals n)
+            (sh'.marks n).length (nref (sh'.marks n))
             (cntL (st.tasks.set i t') n 1) (cntL (st.tasks.set i t') n 2)
-            (cntL (st.tasks.set i t') n 3)) :
+            (cntL (st.tasks.set i t') n 3) (cntL (st.tasks.set i t') n 4)
+            (cntL (st.tasks.set i t') n 5)) :
     Inv m0 { tasks := st.tasks.set i t', sh := sh' } := by
-  refine ⟨?_, hcont, ?_⟩
+  refine ⟨?_, hcont, ?_, ?_⟩
   · intro u hu
     rcases mem_set_cases hu with hu | rfl
     · exact hI.noRaise u hu
     · exact hpc
+  · intro u hu
+    rcases mem_set_cases hu with hu | rfl
+    · exact hI.refNoHandler u hu
+    · exact hrh
   · intro n'
     by_cases hnn : n' = n
     · subst hnn; exact hn
-    · have h1 := cnt_set st i t t' hi n' 1
-      have h2 := cnt_set st i t t' hi n' 2
-      have h3 := cnt_set st i t t' hi n' 3
+    · obtain ⟨h1, h2, h3, h4, h5⟩ := cnt_set5 st i t t' hi n'
       obtain ⟨c0, c0'⟩ := hcls n' hnn
-      obtain ⟨e1, e2, e3⟩ := hsh n' hnn
+      obtain ⟨e1, e2, e3, e4, e5⟩ := hsh n' hnn
       have hp := hI.phase n'
-      simp only [c0, c0'] at h1 h2 h3
-      simp at h1 h2 h3
-      simp only [ncalls, cnt_mk, e1, e2, e3, h1, h2, h3] at hp ⊢
+      simp only [c0, c0'] at h1 h2 h3 h4 h5
+      simp at h1 h2 h3 h4 h5
+      simp only [ncalls, cnt_mk, e1, e2, e3, e4, e5, h1, h2, h3, h4, h5] at hp ⊢
       exact hp
 
 theorem upd_same {α : Type} (f : Ns → α) (n : Ns) (v : α) : upd f n v n = v := by simp [upd]
@@ -164,21 +219,24 @@ theorem inv_noop (m0 : Ns → Bool) (st : St) (i : Nat) (t : Task) (hI : Inv m0 
 /-- a task whose classes are all 0 before and after (conn tasks, failed checks) -/
 theorem inv_neutral (m0 : Ns → Bool) (st : St) (i : Nat) (t t' : Task) (hI : Inv m0 st)
     (hi : st.tasks[i]? = some t) (hpc : t'.pc ≠ .raised)
+    (hrh : t'.kind = .refuse → t'.pc ≠ .handler)
     (h0 : ∀ n, cls n t = 0) (h0' : ∀ n, cls n t' = 0) :
     Inv m0 { tasks := st.tasks.set i t', sh := st.sh } := by
-  refine ⟨?_, hI.noContained, ?_⟩
+  refine ⟨?_, hI.noContained, ?_, ?_⟩
   · intro u hu
     rcases mem_set_cases hu with hu | rfl
     · exact hI.noRaise u hu
     · exact hpc
+  · intro u hu
+    rcases mem_set_cases hu with hu | rfl
+    · exact hI.refNoHandler u hu
+    · exact hrh
   · intro n
-    have h1 := cnt_set st i t t' hi n 1
-    have h2 := cnt_set st i t t' hi n 2
-    have h3 := cnt_set st i t t' hi n 3
+    obtain ⟨h1, h2, h3, h4, h5⟩ := cnt_set5 st i t t' hi n
     have hp := hI.phase n
-    simp only [h0, h0'] at h1 h2 h3
-    simp at h1 h2 h3
-    simp only [ncalls, cnt_mk, h1, h2, h3] at hp ⊢
+    simp only [h0, h0'] at h1 h2 h3 h4 h5
+    simp at h1 h2 h3 h4 h5
+    simp only [ncalls, cnt_mk, h1, h2, h3, h4, h5] at hp ⊢
     exact hp
 
 theorem cls_of_pc_zero (n : Ns) (t : Task)
@@ -191,57 +249,105 @@ theorem cls_of_pc_zero (n : Ns) (t : Task)
     · rfl
   · rfl
 
-theorem inWindow_eq (n : Ns) (t : Task) : inWindow n t = (cls n t == 1) := by
-  unfold inWindow cls
+theorem cls_one_iff (n : Ns) (t : Task) : cls n t = 1 ↔ (t.pc = .mark ∧ t.todo.head? = some n) := by
+  unfold cls
   cases htd : t.todo with
   | nil => simp
   | cons m r =>
     by_cases hm : m = n
-    · subst hm; cases hp : t.pc <;> simp
+    · subst hm; cases hp : t.pc <;> simp <;> split <;> simp
     · cases hp : t.pc <;> simp [hm]
+
+theorem inWindow_eq (n : Ns) (t : Task) : inWindow n t = (cls n t == 1) := by
+  have h := cls_one_iff n t
+  unfold inWindow
+  by_cases hc : cls n t = 1
+  · have := h.mp hc; simp [hc, this.1, this.2]
+  · have hn : ¬ (t.pc = .mark ∧ t.todo.head? = some n) := fun hx => hc (h.mpr hx)
+    have hf : (cls n t == 1) = false := by simpa using hc
+    rw [hf]
+    simp only [not_and] at hn
+    by_cases hp : t.pc = .mark
+    · simp [hp, hn hp]
+    · simp [hp]
 
 theorem noMark_cnt (st : St) (h : noMark st) (n : Ns) : cnt st n 1 = 0 := by
   unfold cnt cntL
   apply List.countP_eq_zero.mpr
   intro t ht
   have := h t ht
-  simp
-  unfold cls
-  split
-  · split
-    · cases hp : t.pc <;> simp_all
-    · simp
-  · simp
+  have hc : cls n t ≠ 1 := fun hx => this ((cls_one_iff n t).mp hx).1
+  simpa using hc
 
 /-! ## phase transitions (pure arithmetic) -/
 
-theorem phase_frame {m0 mem : Bool} {pend calls w a b w' a' b' : Nat}
-    (h : Phase m0 mem pend calls w a b) (hw : w' = w) (ha : a' = a) (hb : b' = b) :
-    Phase m0 mem pend calls w' a' b' := by subst hw ha hb; exact h
+theorem phase_frame {m0 mem : Bool} {pend calls rf nm nr w a b r s w' a' b' r' s' : Nat}
+    (h : Phase m0 mem pend calls rf nm nr w a b r s)
+    (hw : w' = w) (ha : a' = a) (hb : b' = b) (hr : r' = r) (hs : s' = s) :
+    Phase m0 mem pend calls rf nm nr w' a' b' r' s' := by subst hw ha hb hr hs; exact h
 
-theorem phase_window {m0 : Bool} {c w a b w' a' b' : Nat}
-    (h : Phase m0 true 0 c w a b) (_hw0 : w = 0) (hw : w' = 1) (ha : a' = a) (hb : b' = b) :
-    Phase m0 true 0 c w' a' b' := by
+theorem phase_window {m0 : Bool} {c rf nm nr w a b r s w' a' b' r' s' : Nat}
+    (h : Phase m0 true 0 c rf nm nr w a b r s) (_hw0 : w = 0) (hw : w' = 1)
+    (ha : a' = a) (hb : b' = b) (hr : r' = r) (hs : s' = s) :
+    Phase m0 true 0 c rf nm nr w' a' b' r' s' := by
   cases m0 <;> simp [Phase] at h ⊢ <;> omega
 
-theorem phase_mark {m0 : Bool} {c w a b w' a' b' : Nat}
-    (h : Phase m0 true 0 c w a b) (hw : w' = 0) (ha : a' = a + 1) (hb : b' = b) :
-    Phase m0 true 1 c w' a' b' := by
+theorem phase_mark {m0 : Bool} {c rf nm nr w a b r s w' a' b' r' s' : Nat}
+    (h : Phase m0 true 0 c rf nm nr w a b r s) (hw : w' = 0)
+    (ha : a' = a + 1) (hb : b' = b) (hr : r' = r) (hs : s' = s) :
+    Phase m0 true 1 c rf (nm + 1) nr w' a' b' r' s' := by
   cases m0 <;> simp [Phase] at h ⊢ <;> omega
 
-theorem phase_of_window {m0 mem : Bool} {p c w a b : Nat}
-    (h : Phase m0 mem p c w a b) (hpos : 1 ≤ w) : mem = true ∧ p = 0 ∧ w = 1 := by
+theorem phase_mark_refuse {m0 : Bool} {c rf nm nr w a b r s w' a' b' r' s' : Nat}
+    (h : Phase m0 true 0 c rf nm nr w a b r s) (hw : w' = 0)
+    (ha : a' = a) (hb : b' = b) (hr : r' = r + 1) (hs : s' = s) :
+    Phase m0 true 1 c rf (nm + 1) (nr + 1) w' a' b' r' s' := by
+  cases m0 <;> simp [Phase] at h ⊢ <;> omega
+
+theorem phase_of_window {m0 mem : Bool} {p c rf nm nr w a b r s : Nat}
+    (h : Phase m0 mem p c rf nm nr w a b r s) (hpos : 1 ≤ w) : mem = true ∧ p = 0 ∧ w = 1 := by
   cases m0 <;> cases mem <;> simp [Phase] at h ⊢ <;> omega
 
-theorem phase_handler {m0 mem : Bool} {p c w a b w' a' b' : Nat}
-    (h : Phase m0 mem p c w a b) (hpos : 1 ≤ a) (hw : w' = w) (ha : a' + 1 = a) (hb : b' = b + 1) :
-    Phase m0 mem p (c + 1) w' a' b' := by
+theorem phase_handler {m0 mem : Bool} {p c rf nm nr w a b r s w' a' b' r' s' : Nat}
+    (h : Phase m0 mem p c rf nm nr w a b r s) (hpos : 1 ≤ a)
+    (hw : w' = w) (ha : a' + 1 = a) (hb : b' = b + 1) (hr : r' = r) (hs : s' = s) :
+    Phase m0 mem p (c + 1) rf nm nr w' a' b' r' s' := by
   cases m0 <;> cases mem <;> simp [Phase] at h ⊢ <;> omega
 
-theorem phase_cleanup {m0 mem : Bool} {p c w a b w' a' b' : Nat}
-    (h : Phase m0 mem p c w a b) (hpos : 1 ≤ b) (hw : w' = w) (ha : a' = a) (hb : b' + 1 = b) :
-    mem = true ∧ Phase m0 false (p - 1) c w' a' b' := by
+theorem phase_mem_b {m0 mem : Bool} {p c rf nm nr w a b r s : Nat}
+    (h : Phase m0 mem p c rf nm nr w a b r s) (hpos : 1 ≤ b) : mem = true := by
   cases m0 <;> cases mem <;> simp [Phase] at h ⊢ <;> omega
+
+theorem phase_mem_s {m0 mem : Bool} {p c rf nm nr w a b r s : Nat}
+    (h : Phase m0 mem p c rf nm nr w a b r s) (hpos : 1 ≤ s) : mem = true := by
+  cases m0 <;> cases mem <;> simp [Phase] at h ⊢ <;> omega
+
+theorem phase_cleanup {m0 : Bool} {p c rf nm nr w a b r s w' a' b' r' s' : Nat}
+    (h : Phase m0 true p c rf nm nr w a b r s) (hpos : 1 ≤ b)
+    (hw : w' = w) (ha : a' = a) (hb : b' + 1 = b) (hr : r' = r) (hs : s' = s) :
+    Phase m0 false (p - 1) c rf nm nr w' a' b' r' s' := by
+  cases m0 <;> simp [Phase] at h ⊢ <;> omega
+
+theorem phase_rsend {m0 mem : Bool} {p c rf nm nr w a b r s w' a' b' r' s' : Nat}
+    (h : Phase m0 mem p c rf nm nr w a b r s) (hpos : 1 ≤ r)
+    (hw : w' = w) (ha : a' = a) (hb : b' = b) (hr : r' + 1 = r) (hs : s' = s + 1) :
+    Phase m0 mem p c (rf + 1) nm nr w' a' b' r' s' := by
+  cases m0 <;> cases mem <;> simp [Phase] at h ⊢ <;> omega
+
+theorem phase_rcleanup {m0 : Bool} {p c rf nm nr w a b r s w' a' b' r' s' : Nat}
+    (h : Phase m0 true p c rf nm nr w a b r s) (hpos : 1 ≤ s)
+    (hw : w' = w) (ha : a' = a) (hb : b' = b) (hr : r' = r) (hs : s' + 1 = s) :
+    Phase m0 false (p - 1) c rf nm nr w' a' b' r' s' := by
+  cases m0 <;> simp [Phase] at h ⊢ <;> omega
+
+/-- what the phases say about the gate: at most one task ever passes it; handler calls are made
+    only on behalf of a passing task that is not a refusal; a refusal is sent only by a refusing
+    CONNECT that passed -/
+theorem phase_gate {m0 mem : Bool} {p c rf nm nr w a b r s : Nat}
+    (h : Phase m0 mem p c rf nm nr w a b r s) :
+    nm ≤ 1 ∧ c + nr ≤ nm ∧ rf ≤ nr ∧ c ≤ 1 ∧ (1 ≤ nr → c = 0) ∧ (1 ≤ r + s → nr = 1) := by
+  unfold Phase at h
+  omega
 
 /-! ## the step lemma -/
 
@@ -258,21 +364,34 @@ theorem inv_mark (m0 : Ns → Bool) (st : St) (i : Nat) (k : Kind) (p : Pc) (n :
   simp only [markStep, halive, if_true]
   apply inv_update m0 st i _ _ _ n hI hi
   · exact afterMark_ne_raised _
+  · exact afterMark_refuse _
   · exact hI.noContained
   · intro n' hne
     exact ⟨by simp [cls, Ne.symm hne], by simp [cls, Ne.symm hne]⟩
   · intro n' hne
     simp [upd_other _ _ _ _ hne]
-  · have h1 := cnt_set st i _ ⟨k, n :: rest, afterMark k⟩ hi n 1
-    have h2 := cnt_set st i _ ⟨k, n :: rest, afterMark k⟩ hi n 2
-    have h3 := cnt_set st i _ ⟨k, n :: rest, afterMark k⟩ hi n 3
-    have hc2 : cls n ⟨k, n :: rest, afterMark k⟩ = 2 := by cases k <;> simp [cls, afterMark]
-    rw [hc2] at h1 h2 h3
+  · obtain ⟨h1, h2, h3, h4, h5⟩ := cnt_set5 st i _ ⟨k, n :: rest, afterMark k⟩ hi n
     have hp := hI.phase n
     simp only [ncalls, hmem, hpend] at hp
-    simp only [upd_same, hpend, hmem]
-    rcases hc with hc | hc <;> simp only [hc] at h1 h2 h3 hw <;> simp at h1 h2 h3 hw <;>
-      exact phase_mark hp (by omega) (by omega) (by omega)
+    simp only [upd_same, hpend, hmem, List.length_cons]
+    by_cases hk : k = .refuse
+    · subst hk
+      have hc2 : cls n ⟨.refuse, n :: rest, afterMark .refuse⟩ = 4 := by simp [cls, afterMark]
+      have hnr : nref (Kind.refuse :: st.sh.marks n) = nref (st.sh.marks n) + 1 := by simp [nref]
+      rw [hc2] at h1 h2 h3 h4 h5
+      rw [hnr]
+      rcases hc with hc | hc <;> simp only [hc] at h1 h2 h3 h4 h5 hw <;>
+        simp at h1 h2 h3 h4 h5 hw <;>
+        exact phase_mark_refuse hp (by omega) (by omega) (by omega) (by omega) (by omega)
+    · have hc2 : cls n ⟨k, n :: rest, afterMark k⟩ = 2 := by
+        cases k <;> simp_all [cls, afterMark]
+      have hnr : nref (k :: st.sh.marks n) = nref (st.sh.marks n) := by
+        cases k <;> simp_all [nref]
+      rw [hc2] at h1 h2 h3 h4 h5
+      rw [hnr]
+      rcases hc with hc | hc <;> simp only [hc] at h1 h2 h3 h4 h5 hw <;>
+        simp at h1 h2 h3 h4 h5 hw <;>
+        exact phase_mark hp (by omega) (by omega) (by omega) (by omega) (by omega)
 
 theorem step_inv (atomic : Bool) (m0 : Ns → Bool) (st : St) (i : Nat) (hI : Inv m0 st)
     (hadm : admissible st i = true) (hat : atomic = true → noMark st) :
@@ -286,11 +405,11 @@ theorem step_inv (atomic : Bool) (m0 : Ns → Bool) (st : St) (i : Nat) (hI : In
     cases pc with
     | chandler =>
       simp only [stepTask]
-      exact inv_neutral m0 st i _ _ hI hi (by simp)
-        (fun n => cls_of_pc_zero n _ (by simp)) (fun n => cls_of_pc_zero n _ (by simp))
+      exact inv_neutral m0 st i _ _ hI hi (chNext_ne k).1 (fun _ => (chNext_ne k).2.2.2.1)
+        (fun n => cls_of_pc_zero n _ (by simp)) (fun n => cls_of_pc_zero n _ (chNext_ne k).2)
     | csend =>
       simp only [stepTask]
-      exact inv_neutral m0 st i _ _ hI hi (by simp)
+      exact inv_neutral m0 st i _ _ hI hi (by simp) (by simp)
         (fun n => cls_of_pc_zero n _ (by simp)) (fun n => cls_of_pc_zero n _ (by simp))
     | done =>
       have : stepTask atomic st.sh ⟨k, todo, .done⟩ = (⟨k, todo, .done⟩, st.sh) := by
@@ -304,7 +423,7 @@ theorem step_inv (atomic : Bool) (m0 : Ns → Bool) (st : St) (i : Nat) (hI : In
       cases todo with
       | nil =>
         simp only [stepTask]
-        exact inv_neutral m0 st i _ _ hI hi (by simp)
+        exact inv_neutral m0 st i _ _ hI hi (by simp) (by simp)
           (fun n => cls_of_pc_zero n _ (by simp)) (fun n => cls_of_pc_zero n _ (by simp))
       | cons n rest =>
         simp only [stepTask]
@@ -329,22 +448,21 @@ theorem step_inv (atomic : Bool) (m0 : Ns → Bool) (st : St) (i : Nat) (hI : In
               have h2 : st.tasks.countP (inWindow n) = 0 := by simpa using this
               unfold cnt cntL
               rw [← h2]; congr; funext u; exact (inWindow_eq n u).symm
-            refine inv_update m0 st i _ _ _ n hI hi (by simp) (by exact hI.noContained) ?_ ?_ ?_
+            refine inv_update m0 st i _ _ _ n hI hi (by simp) (by simp) (by exact hI.noContained) ?_ ?_ ?_
             · intro n' hne
               exact ⟨hc0 n', by simp [cls, Ne.symm hne]⟩
-            · intro n' _; exact ⟨rfl, rfl, rfl⟩
-            · have h1 := cnt_set st i _ ⟨k, n :: rest, .mark⟩ hi n 1
-              have h2 := cnt_set st i _ ⟨k, n :: rest, .mark⟩ hi n 2
-              have h3 := cnt_set st i _ ⟨k, n :: rest, .mark⟩ hi n 3
+            · intro n' _; exact ⟨rfl, rfl, rfl, rfl, rfl⟩
+            · obtain ⟨h1, h2, h3, h4, h5⟩ := cnt_set5 st i _ ⟨k, n :: rest, .mark⟩ hi n
               have hc1 : cls n ⟨k, n :: rest, .mark⟩ = 1 := by simp [cls]
-              rw [hc1, hc0 n] at h1 h2 h3
-              simp at h1 h2 h3
+              rw [hc1, hc0 n] at h1 h2 h3 h4 h5
+              simp at h1 h2 h3 h4 h5
               have hph := hI.phase n
               simp only [ncalls, hmem, hpend] at hph
               simp only [hmem, hpend]
-              exact phase_window hph hw0 (by omega) h2 h3
+              exact phase_window hph hw0 (by omega) h2 h3 h4 h5
         · simp only [hconn]
-          exact inv_neutral m0 st i _ _ hI hi (advance_pc_ne_raised _ _) hc0
+          exact inv_neutral m0 st i _ _ hI hi (advance_pc_ne_raised _ _)
+            (fun _ => advance_pc_ne_handler _ _) hc0
             (fun n' => cls_advance n' _ rest)
     | mark =>
       cases todo with
@@ -368,17 +486,32 @@ theorem step_inv (atomic : Bool) (m0 : Ns → Bool) (st : St) (i : Nat) (hI : In
         rw [this]; exact inv_noop m0 st i _ hI hi
       | cons n rest =>
         simp only [stepTask]
-        refine inv_update m0 st i _ _ _ n hI hi (by simp) (by exact hI.noContained) ?_ ?_ ?_
-        · intro n' hne
-          exact ⟨by simp [cls, Ne.symm hne], by simp [cls, Ne.symm hne]⟩
-        · intro n' _; exact ⟨rfl, rfl, rfl⟩
-        · have h1 := cnt_set st i _ ⟨k, n :: rest, .handler⟩ hi n 1
-          have h2 := cnt_set st i _ ⟨k, n :: rest, .handler⟩ hi n 2
-          have h3 := cnt_set st i _ ⟨k, n :: rest, .handler⟩ hi n 3
-          simp [cls] at h1 h2 h3
-          have hph := hI.phase n
-          simp only [ncalls] at hph
-          exact phase_frame hph h1 h2 h3
+        have hph := hI.phase n
+        simp only [ncalls] at hph
+        by_cases hk : k = .refuse
+        · subst hk
+          simp only [↓reduceIte]
+          have hc : cls n ⟨.refuse, n :: rest, .send⟩ = 4 := by simp [cls]
+          have hpos := cnt_pos st i _ hi n
+          rw [hc] at hpos
+          refine inv_update m0 st i _ _ _ n hI hi (by simp) (by simp) (by exact hI.noContained) ?_ ?_ ?_
+          · intro n' hne
+            exact ⟨by simp [cls, Ne.symm hne], by simp [cls, Ne.symm hne]⟩
+          · intro n' hne
+            simp [upd_other _ _ _ _ hne]
+          · obtain ⟨h1, h2, h3, h4, h5⟩ := cnt_set5 st i _ ⟨.refuse, n :: rest, .cleanup⟩ hi n
+            simp [cls] at h1 h2 h3 h4 h5
+            simp only [upd_same]
+            exact phase_rsend hph hpos (by omega) (by omega) (by omega) (by omega) (by omega)
+        · simp only [hk, ↓reduceIte]
+          refine inv_update m0 st i _ _ _ n hI hi (by simp) (fun h => absurd h hk)
+            (by exact hI.noContained) ?_ ?_ ?_
+          · intro n' hne
+            exact ⟨by simp [cls, Ne.symm hne], by simp [cls, Ne.symm hne]⟩
+          · intro n' _; exact ⟨rfl, rfl, rfl, rfl, rfl⟩
+          · obtain ⟨h1, h2, h3, h4, h5⟩ := cnt_set5 st i _ ⟨k, n :: rest, .handler⟩ hi n
+            simp [cls, hk] at h1 h2 h3 h4 h5
+            exact phase_frame hph (by omega) (by omega) (by omega) (by omega) (by omega)
     | handler =>
       cases todo with
       | nil =>
@@ -390,19 +523,19 @@ theorem step_inv (atomic : Bool) (m0 : Ns → Bool) (st : St) (i : Nat) (hI : In
         have hc : cls n ⟨k, n :: rest, .handler⟩ = 2 := by simp [cls]
         have hpos := cnt_pos st i _ hi n
         rw [hc] at hpos
-        refine inv_update m0 st i _ _ _ n hI hi (by simp) (by exact hI.noContained) ?_ ?_ ?_
+        refine inv_update m0 st i _ _ _ n hI hi (by simp) (by simp) (by exact hI.noContained) ?_ ?_ ?_
         · intro n' hne
           exact ⟨by simp [cls, Ne.symm hne], by simp [cls, Ne.symm hne]⟩
         · intro n' hne
           simp [upd_other _ _ _ _ hne]
-        · have h1 := cnt_set st i _ ⟨k, n :: rest, .cleanup⟩ hi n 1
-          have h2 := cnt_set st i _ ⟨k, n :: rest, .cleanup⟩ hi n 2
-          have h3 := cnt_set st i _ ⟨k, n :: rest, .cleanup⟩ hi n 3
-          simp [cls] at h1 h2 h3
+        · obtain ⟨h1, h2, h3, h4, h5⟩ := cnt_set5 st i _ ⟨k, n :: rest, .cleanup⟩ hi n
           have hph := hI.phase n
           simp only [ncalls] at hph
           simp only [upd_same, List.length_cons]
-          exact phase_handler hph hpos h1 h2 h3
+          have hk : k ≠ .refuse := fun h =>
+            hI.refNoHandler _ (mem_of_getElem? hi) h rfl
+          simp [cls, hk] at h1 h2 h3 h4 h5
+          exact phase_handler hph hpos (by omega) (by omega) (by omega) (by omega) (by omega)
     | cleanup =>
       cases todo with
       | nil =>
@@ -411,35 +544,80 @@ theorem step_inv (atomic : Bool) (m0 : Ns → Bool) (st : St) (i : Nat) (hI : In
         rw [this]; exact inv_noop m0 st i _ hI hi
       | cons n rest =>
         simp only [stepTask]
-        have hc : cls n ⟨k, n :: rest, .cleanup⟩ = 3 := by simp [cls]
-        have hpos := cnt_pos st i _ hi n
-        rw [hc] at hpos
         have hph := hI.phase n
         simp only [ncalls] at hph
-        have h1 := cnt_set st i _ (advance ⟨k, n :: rest, .cleanup⟩ rest) hi n 1
-        have h2 := cnt_set st i _ (advance ⟨k, n :: rest, .cleanup⟩ rest) hi n 2
-        have h3 := cnt_set st i _ (advance ⟨k, n :: rest, .cleanup⟩ rest) hi n 3
-        rw [cls_advance n _ rest, hc] at h1 h2 h3
-        simp at h1 h2 h3
-        obtain ⟨hmem, hnew⟩ := phase_cleanup hph hpos h1 h2 h3
+        have hpos := cnt_pos st i _ hi n
+        have hmem : st.sh.mem n = true := by
+          by_cases hk : k = .refuse
+          · subst hk
+            rw [show cls n ⟨.refuse, n :: rest, .cleanup⟩ = 5 by simp [cls]] at hpos
+            exact phase_mem_s hph hpos
+          · rw [show cls n ⟨k, n :: rest, .cleanup⟩ = 3 by simp [cls, hk]] at hpos
+            exact phase_mem_b hph hpos
         have halive : alive st.sh n = true := by simp [alive, hmem]
         simp only [halive, if_true]
-        refine inv_update m0 st i _ _ _ n hI hi (advance_pc_ne_raised _ _) (by exact hI.noContained) ?_ ?_ ?_
+        refine inv_update m0 st i _ _ _ n hI hi (advance_pc_ne_raised _ _)
+          (fun _ => advance_pc_ne_handler _ _) (by exact hI.noContained) ?_ ?_ ?_
         · intro n' hne
           exact ⟨by simp [cls, Ne.symm hne], cls_advance n' _ rest⟩
         · intro n' hne
           simp [upd_other _ _ _ _ hne]
-        · simp only [upd_same]
-          exact hnew
+        · obtain ⟨h1, h2, h3, h4, h5⟩ :=
+            cnt_set5 st i _ (advance ⟨k, n :: rest, .cleanup⟩ rest) hi n
+          rw [cls_advance n _ rest] at h1 h2 h3 h4 h5
+          simp only [upd_same]
+          rw [hmem] at hph
+          by_cases hk : k = .refuse
+          · subst hk
+            have hc : cls n ⟨.refuse, n :: rest, .cleanup⟩ = 5 := by simp [cls]
+            rw [hc] at h1 h2 h3 h4 h5 hpos
+            simp at h1 h2 h3 h4 h5
+            exact phase_rcleanup hph hpos (by omega) (by omega) (by omega) (by omega) (by omega)
+          · have hc : cls n ⟨k, n :: rest, .cleanup⟩ = 3 := by simp [cls, hk]
+            rw [hc] at h1 h2 h3 h4 h5 hpos
+            simp at h1 h2 h3 h4 h5
+            exact phase_cleanup hph hpos (by omega) (by omega) (by omega) (by omega) (by omega)
 
 /-! ## the atomic gate never opens a window -/
+
+theorem markStep_pc_ne_mark (sh : Shared) (t : Task) (n : Ns) (rest : List Ns) :
+    (markStep sh t n rest).1.pc ≠ .mark := by
+  unfold markStep
+  split
+  · exact afterMark_ne_mark _
+  · split
+    · exact advance_pc_ne_mark _ _
+    · simp
 
 theorem stepTask_noMark (sh : Shared) (t : Task) (h : t.pc ≠ .mark) :
     (stepTask true sh t).1.pc ≠ .mark := by
   obtain ⟨k, todo, pc⟩ := t
-  cases pc <;> cases todo <;>
-    simp [stepTask, markStep, advance] at h ⊢ <;>
-    (repeat' split) <;> simp_all [afterMark_ne_mark] <;> (cases k <;> simp [afterMark])
+  cases pc with
+  | chandler => simp only [stepTask]; exact (chNext_ne k).2.1
+  | csend => simp [stepTask]
+  | done => unfold stepTask; simp
+  | raised => unfold stepTask; simp
+  | mark => exact absurd rfl h
+  | check =>
+    cases todo with
+    | nil => simp [stepTask]
+    | cons n rest =>
+      simp only [stepTask, if_true]
+      split
+      · exact markStep_pc_ne_mark _ _ _ _
+      · exact advance_pc_ne_mark _ _
+  | send =>
+    cases todo with
+    | nil => unfold stepTask; simp
+    | cons n rest => simp only [stepTask]; split <;> simp
+  | handler =>
+    cases todo with
+    | nil => unfold stepTask; simp
+    | cons n rest => simp [stepTask]
+  | cleanup =>
+    cases todo with
+    | nil => unfold stepTask; simp
+    | cons n rest => simp only [stepTask]; exact advance_pc_ne_mark _ _
 
 theorem noMark_step (st : St) (i : Nat) (h : noMark st) : noMark (step true st i) := by
   unfold step
@@ -485,36 +663,141 @@ theorem run_inv_serial (m0 : Ns → Bool) (sched : List Nat) (st : St) (hI : Inv
     simp only [run, List.foldl_cons]
     exact ih (step false st i) (step_inv false m0 st i hI hs.1 (by simp)) hs.2
 
+theorem run_append (a : Bool) (st : St) (s1 s2 : List Nat) :
+    run a st (s1 ++ s2) = run a (run a st s1) s2 := by
+  simp [run, List.foldl_append]
+
 /-! ## frame: namespaces no task goes through -/
 
 /-- task `t` may still act on namespace `n` -/
 def touches (n : Ns) (t : Task) : Bool :=
   match t.pc with
-  | .chandler | .csend | .done | .raised => false
+  | .csend | .done | .raised => false
+  | .chandler => t.kind == .refuse && t.todo.contains n
   | _ => t.todo.contains n
 
 def targeted (st : St) (n : Ns) : Bool := st.tasks.any (touches n)
 
+/-- the part of the shared state that concerns namespace `n` -/
+def SameAt (sh' sh : Shared) (n : Ns) : Prop :=
+  sh'.mem n = sh.mem n ∧ sh'.pend n = sh.pend n ∧ sh'.calls n = sh.calls n ∧
+  sh'.refusals n = sh.refusals n ∧ sh'.marks n = sh.marks n
+
+theorem SameAt.refl (sh : Shared) (n : Ns) : SameAt sh sh n := ⟨rfl, rfl, rfl, rfl, rfl⟩
+
+theorem SameAt.trans {a b c : Shared} {n : Ns} (h1 : SameAt a b n) (h2 : SameAt b c n) :
+    SameAt a c n :=
+  ⟨h1.1.trans h2.1, h1.2.1.trans h2.2.1, h1.2.2.1.trans h2.2.2.1, h1.2.2.2.1.trans h2.2.2.2.1,
+   h1.2.2.2.2.trans h2.2.2.2.2⟩
+
+theorem markStep_sameAt (sh : Shared) (t : Task) (m : Ns) (rest : List Ns) (n : Ns) (hne : n ≠ m) :
+    SameAt (markStep sh t m rest).2 sh n := by
+  unfold markStep SameAt
+  split
+  · simp [upd, hne]
+  · split <;> simp [upd, hne]
+
+theorem touches_advance (n : Ns) (t : Task) (rest : List Ns) (h : rest.contains n = false) :
+    touches n (advance t rest) = false := by
+  unfold advance touches
+  cases rest <;> simp_all
+
+theorem markStep_touches (sh : Shared) (k : Kind) (p : Pc) (m : Ns) (rest : List Ns) (n : Ns)
+    (h : (m :: rest).contains n = false) :
+    touches n (markStep sh ⟨k, m :: rest, p⟩ m rest).1 = false := by
+  have hr : rest.contains n = false := by simp_all
+  unfold markStep
+  split
+  · cases k <;> simp_all [touches, afterMark]
+  · split
+    · exact touches_advance n _ rest hr
+    · simp [touches]
+
 theorem stepTask_frame (a : Bool) (sh : Shared) (t : Task) (n : Ns) (h : touches n t = false) :
-    (stepTask a sh t).2.mem n = sh.mem n ∧ (stepTask a sh t).2.pend n = sh.pend n ∧
-    (stepTask a sh t).2.calls n = sh.calls n ∧ touches n (stepTask a sh t).1 = false := by
+    SameAt (stepTask a sh t).2 sh n ∧ touches n (stepTask a sh t).1 = false := by
   obtain ⟨k, todo, pc⟩ := t
-  cases pc <;> cases todo <;>
-    simp [stepTask, markStep, advance, touches, upd] at h ⊢ <;>
-    (repeat' split) <;> simp_all [upd] <;> (try (cases k <;> simp_all [afterMark])) <;>
-    (try (intro hx; simp_all))
+  cases pc with
+  | chandler =>
+    simp only [stepTask]
+    refine ⟨SameAt.refl _ _, ?_⟩
+    cases k <;> simp_all [touches, chNext]
+  | csend => simp only [stepTask]; exact ⟨SameAt.refl _ _, by simp [touches]⟩
+  | done =>
+    have e : stepTask a sh ⟨k, todo, .done⟩ = (⟨k, todo, .done⟩, sh) := by unfold stepTask; simp
+    rw [e]; exact ⟨SameAt.refl _ _, h⟩
+  | raised =>
+    have e : stepTask a sh ⟨k, todo, .raised⟩ = (⟨k, todo, .raised⟩, sh) := by unfold stepTask; simp
+    rw [e]; exact ⟨SameAt.refl _ _, h⟩
+  | check =>
+    cases todo with
+    | nil => simp only [stepTask]; exact ⟨SameAt.refl _ _, by simp [touches]⟩
+    | cons m rest =>
+      have hc : (m :: rest).contains n = false := by simpa [touches] using h
+      have hne : n ≠ m := by intro hx; subst hx; simp at hc
+      have hr : rest.contains n = false := by simp_all
+      simp only [stepTask]
+      split
+      · split
+        · exact ⟨markStep_sameAt sh _ m rest n hne, markStep_touches sh k .check m rest n hc⟩
+        · exact ⟨SameAt.refl _ _, by simpa [touches] using hc⟩
+      · exact ⟨SameAt.refl _ _, touches_advance n _ rest hr⟩
+  | mark =>
+    cases todo with
+    | nil =>
+      have e : stepTask a sh ⟨k, [], .mark⟩ = (⟨k, [], .mark⟩, sh) := by unfold stepTask; simp
+      rw [e]; exact ⟨SameAt.refl _ _, h⟩
+    | cons m rest =>
+      have hc : (m :: rest).contains n = false := by simpa [touches] using h
+      have hne : n ≠ m := by intro hx; subst hx; simp at hc
+      simp only [stepTask]
+      exact ⟨markStep_sameAt sh _ m rest n hne, markStep_touches sh k .mark m rest n hc⟩
+  | send =>
+    cases todo with
+    | nil =>
+      have e : stepTask a sh ⟨k, [], .send⟩ = (⟨k, [], .send⟩, sh) := by unfold stepTask; simp
+      rw [e]; exact ⟨SameAt.refl _ _, h⟩
+    | cons m rest =>
+      have hc : (m :: rest).contains n = false := by simpa [touches] using h
+      have hne : n ≠ m := by intro hx; subst hx; simp at hc
+      simp only [stepTask]
+      split
+      · exact ⟨by simp [SameAt, upd, hne], by simpa [touches] using hc⟩
+      · exact ⟨by simp [SameAt], by simpa [touches] using hc⟩
+  | handler =>
+    cases todo with
+    | nil =>
+      have e : stepTask a sh ⟨k, [], .handler⟩ = (⟨k, [], .handler⟩, sh) := by unfold stepTask; simp
+      rw [e]; exact ⟨SameAt.refl _ _, h⟩
+    | cons m rest =>
+      have hc : (m :: rest).contains n = false := by simpa [touches] using h
+      have hne : n ≠ m := by intro hx; subst hx; simp at hc
+      simp only [stepTask]
+      exact ⟨by simp [SameAt, upd, hne], by simpa [touches] using hc⟩
+  | cleanup =>
+    cases todo with
+    | nil =>
+      have e : stepTask a sh ⟨k, [], .cleanup⟩ = (⟨k, [], .cleanup⟩, sh) := by unfold stepTask; simp
+      rw [e]; exact ⟨SameAt.refl _ _, h⟩
+    | cons m rest =>
+      have hc : (m :: rest).contains n = false := by simpa [touches] using h
+      have hne : n ≠ m := by intro hx; subst hx; simp at hc
+      have hr : rest.contains n = false := by simp_all
+      simp only [stepTask]
+      refine ⟨?_, touches_advance n _ rest hr⟩
+      split
+      · simp [SameAt, upd, hne]
+      · exact SameAt.refl _ _
 
 theorem step_frame (a : Bool) (st : St) (i : Nat) (n : Ns) (h : targeted st n = false) :
-    (step a st i).sh.mem n = st.sh.mem n ∧ (step a st i).sh.pend n = st.sh.pend n ∧
-    (step a st i).sh.calls n = st.sh.calls n ∧ targeted (step a st i) n = false := by
+    SameAt (step a st i).sh st.sh n ∧ targeted (step a st i) n = false := by
   unfold step
   cases hi : st.tasks[i]? with
-  | none => exact ⟨rfl, rfl, rfl, h⟩
+  | none => exact ⟨SameAt.refl _ _, h⟩
   | some t =>
     have hall : ∀ u ∈ st.tasks, touches n u = false := by
       simpa [targeted] using h
-    obtain ⟨h1, h2, h3, h4⟩ := stepTask_frame a st.sh t n (hall t (mem_of_getElem? hi))
-    refine ⟨h1, h2, h3, ?_⟩
+    obtain ⟨h1, h4⟩ := stepTask_frame a st.sh t n (hall t (mem_of_getElem? hi))
+    refine ⟨h1, ?_⟩
     simp only [targeted, List.any_eq_false]
     intro u hu
     rcases mem_set_cases hu with hu | rfl
@@ -522,15 +805,13 @@ theorem step_frame (a : Bool) (st : St) (i : Nat) (n : Ns) (h : targeted st n = 
     · simp [h4]
 
 theorem run_frame (a : Bool) (sched : List Nat) (st : St) (n : Ns) (h : targeted st n = false) :
-    (run a st sched).sh.mem n = st.sh.mem n ∧ (run a st sched).sh.pend n = st.sh.pend n ∧
-    (run a st sched).sh.calls n = st.sh.calls n := by
+    SameAt (run a st sched).sh st.sh n := by
   induction sched generalizing st with
-  | nil => exact ⟨rfl, rfl, rfl⟩
+  | nil => exact SameAt.refl _ _
   | cons i r ih =>
     simp only [run, List.foldl_cons]
-    obtain ⟨h1, h2, h3, h4⟩ := step_frame a st i n h
-    obtain ⟨g1, g2, g3⟩ := ih (step a st i) h4
-    exact ⟨g1.trans h1, g2.trans h2, g3.trans h3⟩
+    obtain ⟨h1, h4⟩ := step_frame a st i n h
+    exact (ih (step a st i) h4).trans h1
 
 /-! ## quiescence: a targeted namespace does not stay untouched -/
 
@@ -538,6 +819,7 @@ theorem run_frame (a : Bool) (sched : List Nat) (st : St) (n : Ns) (h : targeted
 def wants (n : Ns) (t : Task) : Bool :=
   match t.pc with
   | .check => t.todo.contains n
+  | .chandler => t.kind == .refuse && t.todo.contains n
   | .mark | .send | .handler | .cleanup => t.todo.tail.contains n
   | _ => false
 
@@ -580,25 +862,34 @@ theorem markStep_wants (sh : Shared) (k : Kind) (p : Pc) (m : Ns) (rest : List N
     · exact ⟨wants_advance n _ rest, fun _ => cls_advance n _ rest⟩
     · rename_i h1 h2; simp [h1, h2] at hr
 
+theorem cls_ne_one_of_pc (n : Ns) (t : Task) (h : t.pc ≠ .mark) : cls n t ≠ 1 :=
+  fun hx => h ((cls_one_iff n t).mp hx).1
+
 theorem stepTask_untouched (a : Bool) (sh : Shared) (t : Task) (n : Ns)
     (hm : (stepTask a sh t).2.mem n = true) (hp : (stepTask a sh t).2.pend n = 0)
     (hc : cls n (stepTask a sh t).1 ≠ 1) (hr : (stepTask a sh t).1.pc ≠ .raised) :
     sh.mem n = true ∧ sh.pend n = 0 ∧ cls n t ≠ 1 ∧ wants n (stepTask a sh t).1 = wants n t := by
   obtain ⟨k, todo, pc⟩ := t
   cases pc with
-  | chandler => simp only [stepTask] at hm hp ⊢; exact ⟨hm, hp, by simp [cls_of_pc_zero], by simp [wants]⟩
-  | csend => simp only [stepTask] at hm hp ⊢; exact ⟨hm, hp, by simp [cls_of_pc_zero], by simp [wants]⟩
+  | chandler =>
+    simp only [stepTask] at hm hp ⊢
+    exact ⟨hm, hp, cls_ne_one_of_pc n _ (by simp), by cases k <;> simp [wants, chNext]⟩
+  | csend =>
+    simp only [stepTask] at hm hp ⊢
+    exact ⟨hm, hp, cls_ne_one_of_pc n _ (by simp), by simp [wants]⟩
   | done =>
     have e : stepTask a sh ⟨k, todo, .done⟩ = (⟨k, todo, .done⟩, sh) := by unfold stepTask; simp
-    rw [e] at hm hp ⊢; exact ⟨hm, hp, by simp [cls_of_pc_zero], rfl⟩
+    rw [e] at hm hp ⊢; exact ⟨hm, hp, cls_ne_one_of_pc n _ (by simp), rfl⟩
   | raised =>
     have e : stepTask a sh ⟨k, todo, .raised⟩ = (⟨k, todo, .raised⟩, sh) := by unfold stepTask; simp
-    rw [e] at hm hp ⊢; exact ⟨hm, hp, by simp [cls_of_pc_zero], rfl⟩
+    rw [e] at hm hp ⊢; exact ⟨hm, hp, cls_ne_one_of_pc n _ (by simp), rfl⟩
   | check =>
     cases todo with
-    | nil => simp only [stepTask] at hm hp ⊢; exact ⟨hm, hp, by simp [cls_of_pc_zero], by simp [wants]⟩
+    | nil =>
+      simp only [stepTask] at hm hp ⊢
+      exact ⟨hm, hp, cls_ne_one_of_pc n _ (by simp), by simp [wants]⟩
     | cons m rest =>
-      have hcl : cls n ⟨k, m :: rest, .check⟩ ≠ 1 := by simp [cls_of_pc_zero]
+      have hcl : cls n ⟨k, m :: rest, .check⟩ ≠ 1 := cls_ne_one_of_pc n _ (by simp)
       simp only [stepTask] at hm hp hc hr ⊢
       by_cases hmn : m = n
       · subst hmn
@@ -649,9 +940,13 @@ theorem stepTask_untouched (a : Bool) (sh : Shared) (t : Task) (n : Ns)
       have e : stepTask a sh ⟨k, [], .send⟩ = (⟨k, [], .send⟩, sh) := by unfold stepTask; simp
       rw [e] at hm hp ⊢; exact ⟨hm, hp, by simp [cls], rfl⟩
     | cons m rest =>
-      simp only [stepTask] at hm hp ⊢
-      refine ⟨hm, hp, ?_, by simp [wants]⟩
-      simp only [cls]; split <;> simp
+      have hcl : cls n ⟨k, m :: rest, .send⟩ ≠ 1 := cls_ne_one_of_pc n _ (by simp)
+      by_cases hk : k = .refuse
+      · subst hk
+        simp only [stepTask, ↓reduceIte] at hm hp ⊢
+        exact ⟨hm, hp, hcl, by simp [wants]⟩
+      · simp only [stepTask, hk, ↓reduceIte] at hm hp ⊢
+        exact ⟨hm, hp, hcl, by simp [wants]⟩
   | handler =>
     cases todo with
     | nil =>
@@ -659,8 +954,7 @@ theorem stepTask_untouched (a : Bool) (sh : Shared) (t : Task) (n : Ns)
       rw [e] at hm hp ⊢; exact ⟨hm, hp, by simp [cls], rfl⟩
     | cons m rest =>
       simp only [stepTask] at hm hp ⊢
-      refine ⟨hm, hp, ?_, by simp [wants]⟩
-      simp only [cls]; split <;> simp
+      exact ⟨hm, hp, cls_ne_one_of_pc n _ (by simp), by simp [wants]⟩
   | cleanup =>
     cases todo with
     | nil =>
@@ -668,8 +962,7 @@ theorem stepTask_untouched (a : Bool) (sh : Shared) (t : Task) (n : Ns)
       rw [e] at hm hp ⊢; exact ⟨hm, hp, by simp [cls], rfl⟩
     | cons m rest =>
       simp only [stepTask] at hm hp ⊢
-      have hcl : cls n ⟨k, m :: rest, .cleanup⟩ ≠ 1 := by
-        simp only [cls]; split <;> simp
+      have hcl : cls n ⟨k, m :: rest, .cleanup⟩ ≠ 1 := cls_ne_one_of_pc n _ (by simp)
       by_cases hmn : m = n
       · subst hmn
         exfalso
@@ -732,17 +1025,247 @@ theorem run_untouched (a : Bool) (sched : List Nat) (st : St) (n : Ns)
     obtain ⟨g1, g2⟩ := step_untouched a st i n h1 hr0
     exact ⟨g1, h2.trans g2⟩
 
+/-! ## the gate record only grows; refusals are recorded only for namespaces a refusing CONNECT targets -/
+
+theorem markStep_marks (sh : Shared) (t : Task) (m : Ns) (rest : List Ns) (n : Ns) :
+    (markStep sh t m rest).2.marks n = sh.marks n ∨
+    (m = n ∧ (markStep sh t m rest).2.marks n = t.kind :: sh.marks n) := by
+  by_cases hmn : m = n
+  · subst hmn
+    right
+    refine ⟨rfl, ?_⟩
+    unfold markStep
+    split
+    · simp [upd]
+    · split <;> simp [upd]
+  · left
+    have : n ≠ m := Ne.symm hmn
+    unfold markStep
+    split
+    · simp [upd, this]
+    · split <;> simp [upd, this]
+
+/-- one step changes `marks n` only by a task whose current namespace is `n` pushing its own kind -/
+theorem stepTask_marks (a : Bool) (sh : Shared) (t : Task) (n : Ns) :
+    (stepTask a sh t).2.marks n = sh.marks n ∨
+    (t.todo.head? = some n ∧ (stepTask a sh t).2.marks n = t.kind :: sh.marks n) := by
+  obtain ⟨k, todo, pc⟩ := t
+  cases pc with
+  | chandler => left; simp [stepTask]
+  | csend => left; simp [stepTask]
+  | done => left; unfold stepTask; simp
+  | raised => left; unfold stepTask; simp
+  | check =>
+    cases todo with
+    | nil => left; simp [stepTask]
+    | cons m rest =>
+      simp only [stepTask]
+      split
+      · split
+        · rcases markStep_marks sh ⟨k, m :: rest, .check⟩ m rest n with h | ⟨h1, h2⟩
+          · exact Or.inl h
+          · exact Or.inr ⟨by simp [h1], h2⟩
+        · exact Or.inl rfl
+      · exact Or.inl rfl
+  | mark =>
+    cases todo with
+    | nil => left; unfold stepTask; simp
+    | cons m rest =>
+      simp only [stepTask]
+      rcases markStep_marks sh ⟨k, m :: rest, .mark⟩ m rest n with h | ⟨h1, h2⟩
+      · exact Or.inl h
+      · exact Or.inr ⟨by simp [h1], h2⟩
+  | send =>
+    cases todo with
+    | nil => left; unfold stepTask; simp
+    | cons m rest => left; simp only [stepTask]; split <;> rfl
+  | handler =>
+    cases todo with
+    | nil => left; unfold stepTask; simp
+    | cons m rest => left; simp [stepTask]
+  | cleanup =>
+    cases todo with
+    | nil => left; unfold stepTask; simp
+    | cons m rest => left; simp only [stepTask]; split <;> rfl
+
+theorem step_marks (a : Bool) (st : St) (i : Nat) (n : Ns) :
+    ∃ l, (step a st i).sh.marks n = l ++ st.sh.marks n := by
+  unfold step
+  cases hi : st.tasks[i]? with
+  | none => exact ⟨[], rfl⟩
+  | some t =>
+    rcases stepTask_marks a st.sh t n with h | ⟨_, h⟩
+    · exact ⟨[], by simpa using h⟩
+    · exact ⟨[t.kind], by simpa using h⟩
+
+theorem run_marks (a : Bool) (sched : List Nat) (st : St) (n : Ns) :
+    ∃ l, (run a st sched).sh.marks n = l ++ st.sh.marks n := by
+  induction sched generalizing st with
+  | nil => exact ⟨[], rfl⟩
+  | cons i r ih =>
+    simp only [run, List.foldl_cons]
+    obtain ⟨l1, h1⟩ := step_marks a st i n
+    obtain ⟨l2, h2⟩ := ih (step a st i)
+    exact ⟨l2 ++ l1, by simp only [run] at h2; rw [h2, h1, List.append_assoc]⟩
+
+/-- a refusal recorded at the gate of `n` stays recorded -/
+theorem run_nref_mono (a : Bool) (sched : List Nat) (st : St) (n : Ns) :
+    nref (st.sh.marks n) ≤ nref ((run a st sched).sh.marks n) := by
+  obtain ⟨l, h⟩ := run_marks a sched st n
+  rw [h]; simp [nref, List.count_append]
+
+/-- some refusing CONNECT (a task of kind `refuse`) has namespace `n` on its list -/
+def refuseTargets (st : St) (n : Ns) : Bool :=
+  st.tasks.any (fun t => t.kind == .refuse && t.todo.contains n)
+
+theorem stepTask_kind_todo (a : Bool) (sh : Shared) (t : Task) :
+    (stepTask a sh t).1.kind = t.kind ∧ ∀ n, n ∈ (stepTask a sh t).1.todo → n ∈ t.todo := by
+  have hadv : ∀ (t : Task) (m : Ns) (rest : List Ns), t.todo = m :: rest →
+      (advance t rest).kind = t.kind ∧ ∀ n, n ∈ (advance t rest).todo → n ∈ t.todo := by
+    intro t m rest h
+    exact ⟨rfl, fun n hn => by rw [h]; exact List.mem_cons_of_mem _ hn⟩
+  have hmk : ∀ (t : Task) (m : Ns) (rest : List Ns), t.todo = m :: rest →
+      (markStep sh t m rest).1.kind = t.kind ∧
+      ∀ n, n ∈ (markStep sh t m rest).1.todo → n ∈ t.todo := by
+    intro t m rest h
+    unfold markStep
+    split
+    · exact ⟨rfl, fun n hn => hn⟩
+    · split
+      · exact hadv t m rest h
+      · exact ⟨rfl, fun n hn => hn⟩
+  obtain ⟨k, todo, pc⟩ := t
+  cases pc with
+  | chandler => simp [stepTask]
+  | csend => simp [stepTask]
+  | done => unfold stepTask; simp
+  | raised => unfold stepTask; simp
+  | check =>
+    cases todo with
+    | nil => simp [stepTask]
+    | cons m rest =>
+      simp only [stepTask]
+      split
+      · split
+        · exact hmk _ m rest rfl
+        · exact ⟨rfl, fun n hn => hn⟩
+      · exact hadv _ m rest rfl
+  | mark =>
+    cases todo with
+    | nil => unfold stepTask; simp
+    | cons m rest => simp only [stepTask]; exact hmk _ m rest rfl
+  | send =>
+    cases todo with
+    | nil => unfold stepTask; simp
+    | cons m rest => simp only [stepTask]; split <;> exact ⟨rfl, fun n hn => hn⟩
+  | handler =>
+    cases todo with
+    | nil => unfold stepTask; simp
+    | cons m rest => simp [stepTask]
+  | cleanup =>
+    cases todo with
+    | nil => unfold stepTask; simp
+    | cons m rest => simp only [stepTask]; exact hadv _ m rest rfl
+
+theorem step_refuseTargets (a : Bool) (st : St) (i : Nat) (n : Ns)
+    (h : refuseTargets st n = false) :
+    refuseTargets (step a st i) n = false ∧
+    nref ((step a st i).sh.marks n) = nref (st.sh.marks n) := by
+  have hall : ∀ u ∈ st.tasks, ¬ (u.kind = .refuse ∧ n ∈ u.todo) := by
+    simpa [refuseTargets] using h
+  unfold step
+  cases hi : st.tasks[i]? with
+  | none => exact ⟨h, rfl⟩
+  | some t =>
+    have ht := hall t (mem_of_getElem? hi)
+    obtain ⟨hk, htd⟩ := stepTask_kind_todo a st.sh t
+    constructor
+    · simp only [refuseTargets, List.any_eq_false]
+      intro u hu
+      rcases mem_set_cases hu with hu | rfl
+      · have := hall u hu; simpa using this
+      · have : ¬ ((stepTask a st.sh t).1.kind = .refuse ∧ n ∈ (stepTask a st.sh t).1.todo) :=
+          fun hx => ht ⟨hk ▸ hx.1, htd n hx.2⟩
+        simpa using this
+    · simp only
+      rcases stepTask_marks a st.sh t n with hm | ⟨hh, hm⟩
+      · rw [hm]
+      · rw [hm]
+        have hmem : n ∈ t.todo := by
+          cases htd' : t.todo with
+          | nil => simp [htd'] at hh
+          | cons m r => simp [htd'] at hh; simp [hh]
+        have hkr : t.kind ≠ .refuse := fun hx => ht ⟨hx, hmem⟩
+        cases hkk : t.kind <;> simp_all [nref]
+
+theorem run_refuseTargets (a : Bool) (sched : List Nat) (st : St) (n : Ns)
+    (h : refuseTargets st n = false) :
+    nref ((run a st sched).sh.marks n) = nref (st.sh.marks n) := by
+  induction sched generalizing st with
+  | nil => rfl
+  | cons i r ih =>
+    simp only [run, List.foldl_cons]
+    obtain ⟨h1, h2⟩ := step_refuseTargets a st i n h
+    have := ih (step a st i) h1
+    simp only [run] at this
+    rw [this, h2]
+
 /-! ## consequences of the invariant -/
 
-theorem inv_calls_le (m0 : Ns → Bool) (st : St) (hI : Inv m0 st) (n : Ns) : ncalls st n ≤ 1 := by
-  have := hI.phase n
-  unfold Phase at this
-  omega
+theorem inv_calls_le (m0 : Ns → Bool) (st : St) (hI : Inv m0 st) (n : Ns) : ncalls st n ≤ 1 :=
+  (phase_gate (hI.phase n)).2.2.2.1
 
 theorem inv_anyRaised (m0 : Ns → Bool) (st : St) (hI : Inv m0 st) : anyRaised st = false := by
   simp only [anyRaised, List.any_eq_false]
   intro t ht
   simpa using hI.noRaise t ht
+
+theorem marks_refuse {l : List Kind} (h1 : l.length = 1) (h2 : nref l = 1) : l = [.refuse] := by
+  match l, h1 with
+  | [k], _ => cases k <;> simp_all [nref]
+
+theorem marks_single {l : List Kind} {k : Kind} (h : l.length ≤ 1) (hm : k ∈ l) : l = [k] := by
+  match l, h, hm with
+  | [x], _, hx => simp at hx; rw [hx]
+
+theorem marks_cause {l : List Kind} (h1 : l.length = 1) (h2 : nref l = 0) :
+    ∃ k, k ≠ .refuse ∧ l = [k] := by
+  match l, h1 with
+  | [k], _ => exact ⟨k, by cases k <;> simp_all [nref], rfl⟩
+
+/-- task `t` is a refusing CONNECT that has passed the gate of `n` (marked the session as going
+    away) and has not yet finished its cleanup -/
+def refusedPast (n : Ns) (t : Task) : Bool :=
+  t.kind == .refuse && t.todo.head? == some n && (t.pc == .send || t.pc == .cleanup)
+
+theorem refusedPast_cls (n : Ns) (t : Task) (h : refusedPast n t = true) :
+    cls n t = 4 ∨ cls n t = 5 := by
+  obtain ⟨k, todo, pc⟩ := t
+  cases todo with
+  | nil => simp [refusedPast] at h
+  | cons m r =>
+    simp only [refusedPast, Bool.and_eq_true, Bool.or_eq_true, beq_iff_eq, List.head?_cons,
+      Option.some.injEq] at h
+    obtain ⟨⟨hk, hm⟩, hp⟩ := h
+    subst hk hm
+    rcases hp with hp | hp <;> subst hp <;> simp [cls]
+
+/-- under the invariant: a refusing CONNECT past the gate of `n` is the only task that ever passed
+    it, and the disconnect handler has not been invoked -/
+theorem inv_refusedPast (m0 : Ns → Bool) (st : St) (hI : Inv m0 st) (n : Ns)
+    (h : st.tasks.any (refusedPast n) = true) : nref (st.sh.marks n) = 1 := by
+  obtain ⟨t, ht, hp⟩ := List.any_eq_true.mp h
+  have hpos := cnt_pos_of_mem st t ht n
+  have hg := (phase_gate (hI.phase n)).2.2.2.2.2
+  rcases refusedPast_cls n t hp with hc | hc <;> rw [hc] at hpos <;> omega
+
+/-- a refusal recorded at the gate excludes handler calls for ever -/
+theorem inv_refused (m0 : Ns → Bool) (st : St) (hI : Inv m0 st) (n : Ns)
+    (h : 1 ≤ nref (st.sh.marks n)) : st.sh.calls n = [] ∧ st.sh.marks n = [.refuse] := by
+  have hph := hI.phase n
+  have hg := phase_gate hph
+  have hc : ncalls st n = 0 := hg.2.2.2.2.1 h
+  refine ⟨List.eq_nil_of_length_eq_zero hc, marks_refuse ?_ ?_⟩ <;> omega
 
 theorem allDone_cnt (st : St) (h : allDone st = true) (n : Ns) (k : Nat) (hk : k ≠ 0) :
     cnt st n k = 0 := by
@@ -767,38 +1290,49 @@ theorem allDone_nWants (st : St) (h : allDone st = true) (n : Ns) : nWants st n 
   rcases hf with hf | hf <;> simp [wants, hf]
 
 /-- at quiescence a namespace the sid was connected to and that some task still had to check at
-    the start has ended: handler ran once, no membership, not pending -/
+    the start has ended — no membership, not pending — in exactly one of two ways: a terminating
+    cause won the gate and the handler ran once (no refusal was sent), or a refusing CONNECT won it,
+    the refusal was sent once and the handler never ran -/
 theorem quiescent_ended (a : Bool) (m0 : Ns → Bool) (st0 : St) (sched : List Nat) (n : Ns)
     (hI : ∀ pre, pre <+: sched → Inv m0 (run a st0 pre))
     (hd : allDone (run a st0 sched) = true) (hm0 : m0 n = true) (hw : 0 < nWants st0 n) :
-    ncalls (run a st0 sched) n = 1 ∧ (run a st0 sched).sh.mem n = false ∧
-    (run a st0 sched).sh.pend n = 0 := by
+    (run a st0 sched).sh.mem n = false ∧ (run a st0 sched).sh.pend n = 0 ∧
+    ((ncalls (run a st0 sched) n = 1 ∧ (run a st0 sched).sh.refusals n = 0 ∧
+        ((run a st0 sched).sh.marks n).length = 1 ∧ nref ((run a st0 sched).sh.marks n) = 0) ∨
+     (ncalls (run a st0 sched) n = 0 ∧ (run a st0 sched).sh.refusals n = 1 ∧
+        ((run a st0 sched).sh.marks n).length = 1 ∧ nref ((run a st0 sched).sh.marks n) = 1)) := by
   have hph := (hI sched (List.prefix_refl _)).phase n
   have c1 := allDone_cnt _ hd n 1 (by omega)
   have c2 := allDone_cnt _ hd n 2 (by omega)
   have c3 := allDone_cnt _ hd n 3 (by omega)
+  have c4 := allDone_cnt _ hd n 4 (by omega)
+  have c5 := allDone_cnt _ hd n 5 (by omega)
   have hnot : ¬ Untouched (run a st0 sched) n := by
     intro hu
     have := (run_untouched a sched st0 n (fun pre hp => (hI pre hp).noRaise) hu).2
     rw [allDone_nWants _ hd n] at this
     omega
-  rw [c1, c2, c3, hm0] at hph
+  rw [c1, c2, c3, c4, c5, hm0] at hph
   cases hmem : (run a st0 sched).sh.mem n
-  · simp [Phase, hmem] at hph
-    exact ⟨hph.2, rfl, hph.1⟩
+  · rw [hmem] at hph
+    simp [Phase] at hph
+    refine ⟨rfl, ?_, ?_⟩ <;> omega
   · exfalso
-    simp [Phase, hmem] at hph
-    exact hnot ⟨hmem, hph.1, c1⟩
+    rw [hmem] at hph
+    simp [Phase] at hph
+    exact hnot ⟨hmem, by omega, c1⟩
 
 /-! ## initial states -/
 
 /-- nobody has started (every task is at its first pc or already over), nothing pending, no
-    handler call recorded -/
+    handler call recorded, no refusal sent, nobody has passed a gate -/
 structure Init (st : St) : Prop where
   pcs : ∀ t ∈ st.tasks, t.pc = .check ∨ t.pc = .chandler ∨ t.pc = .done
   pend : ∀ n, st.sh.pend n = 0
   calls : ∀ n, st.sh.calls n = []
   contained : st.sh.contained = 0
+  refusals : ∀ n, st.sh.refusals n = 0
+  marks : ∀ n, st.sh.marks n = []
 
 theorem init_inv (st : St) (h : Init st) : Inv st.sh.mem st ∧ noMark st := by
   have hz : ∀ n k, k ≠ 0 → cnt st n k = 0 := by
@@ -810,11 +1344,14 @@ theorem init_inv (st : St) (h : Init st) : Inv st.sh.mem st ∧ noMark st := by
       apply cls_of_pc_zero
       rcases h.pcs t ht with hp | hp | hp <;> simp [hp]
     simp [this]; omega
-  refine ⟨⟨?_, h.contained, ?_⟩, ?_⟩
+  refine ⟨⟨?_, h.contained, ?_, ?_⟩, ?_⟩
   · intro t ht; rcases h.pcs t ht with hp | hp | hp <;> simp [hp]
+  · intro t ht _; rcases h.pcs t ht with hp | hp | hp <;> simp [hp]
   · intro n
-    rw [hz n 1 (by omega), hz n 2 (by omega), hz n 3 (by omega)]
-    simp only [ncalls, h.pend n, h.calls n, List.length_nil]
+    rw [hz n 1 (by omega), hz n 2 (by omega), hz n 3 (by omega), hz n 4 (by omega),
+      hz n 5 (by omega)]
+    simp only [ncalls, h.pend n, h.calls n, h.refusals n, h.marks n, List.length_nil, nref,
+      List.count_nil]
     cases st.sh.mem n <;> simp [Phase]
   · intro t ht; rcases h.pcs t ht with hp | hp | hp <;> simp [hp]
 
@@ -824,12 +1361,11 @@ theorem init_wants (st : St) (h : Init st) (n : Ns) (ht : targeted st n = true) 
   unfold nWants
   apply List.countP_pos_iff.mpr
   refine ⟨t, hmem, ?_⟩
-  rcases h.pcs t hmem with hp | hp | hp <;> simp [touches, wants, hp] at htt ⊢
-  exact htt
+  rcases h.pcs t hmem with hp | hp | hp <;> simp [touches, wants, hp] at htt ⊢ <;> exact htt
 
 theorem mkSt_init (tasks : List (Kind × List Ns)) (conn others : List Ns) :
     Init (mkSt tasks conn others) := by
-  refine ⟨?_, fun _ => rfl, fun _ => rfl, rfl⟩
+  refine ⟨?_, fun _ => rfl, fun _ => rfl, rfl, fun _ => rfl, fun _ => rfl⟩
   intro t ht
   simp only [mkSt, List.mem_map] at ht
   obtain ⟨p, _, rfl⟩ := ht
@@ -856,23 +1392,63 @@ theorem conclusions (a : Bool) (st0 : St) (h0 : Init st0) (sched : List Nat)
     ∧ anyRaised (run a st0 sched) = false
     ∧ (run a st0 sched).sh.contained = 0
     ∧ (allDone (run a st0 sched) = true → ∀ n, st0.sh.mem n = true → targeted st0 n = true →
-        ncalls (run a st0 sched) n = 1 ∧ residue (run a st0 sched) n = false)
+        residue (run a st0 sched) n = false ∧
+        ((ncalls (run a st0 sched) n = 1 ∧ (run a st0 sched).sh.refusals n = 0 ∧
+            ∃ k, k ≠ Kind.refuse ∧ (run a st0 sched).sh.marks n = [k]) ∨
+         (ncalls (run a st0 sched) n = 0 ∧ (run a st0 sched).sh.refusals n = 1 ∧
+            (run a st0 sched).sh.marks n = [Kind.refuse])) ∧
+        (refuseTargets st0 n = false → ncalls (run a st0 sched) n = 1))
     ∧ (∀ n, st0.sh.mem n = false →
         ncalls (run a st0 sched) n = 0 ∧ residue (run a st0 sched) n = false)
     ∧ (∀ n, targeted st0 n = false →
         (run a st0 sched).sh.mem n = st0.sh.mem n ∧ ncalls (run a st0 sched) n = 0 ∧
-        (run a st0 sched).sh.pend n = 0) := by
+        (run a st0 sched).sh.pend n = 0 ∧ (run a st0 sched).sh.refusals n = 0 ∧
+        (run a st0 sched).sh.marks n = []) := by
   have hfin := hI sched (List.prefix_refl _)
   refine ⟨inv_calls_le _ _ hfin, inv_anyRaised _ _ hfin, hfin.noContained, ?_, ?_, ?_⟩
   · intro hd n hm ht
-    obtain ⟨q1, q2, q3⟩ := quiescent_ended a st0.sh.mem st0 sched n hI hd hm (init_wants st0 h0 n ht)
-    exact ⟨q1, by simp [residue, q2, q3]⟩
+    obtain ⟨q2, q3, q⟩ := quiescent_ended a st0.sh.mem st0 sched n hI hd hm (init_wants st0 h0 n ht)
+    refine ⟨by simp [residue, q2, q3], ?_, ?_⟩
+    · rcases q with ⟨qa, qb, qc, qd⟩ | ⟨qa, qb, qc, qd⟩
+      · exact Or.inl ⟨qa, qb, marks_cause qc qd⟩
+      · exact Or.inr ⟨qa, qb, marks_refuse qc qd⟩
+    · intro hrt
+      have := run_refuseTargets a sched st0 n hrt
+      rw [h0.marks n] at this
+      simp only [nref, List.count_nil] at this
+      rcases q with ⟨qa, _, _, _⟩ | ⟨_, _, _, qd⟩
+      · exact qa
+      · simp only [nref] at qd; omega
   · intro n hm
     have := hfin.phase n
     simp [Phase, hm] at this
     exact ⟨this.2.2.1, by simp [residue, this.1, this.2.1]⟩
   · intro n ht
-    obtain ⟨f1, f2, f3⟩ := run_frame a sched st0 n ht
-    exact ⟨f1, by simp [ncalls, f3, h0.calls n], by rw [f2, h0.pend n]⟩
+    obtain ⟨f1, f2, f3, f4, f5⟩ := run_frame a sched st0 n ht
+    exact ⟨f1, by simp [ncalls, f3, h0.calls n], by rw [f2, h0.pend n], by rw [f4, h0.refusals n],
+      by rw [f5, h0.marks n]⟩
+
+/-- the gate, from the invariant along the schedule: at most one task ever passes the gate of a
+    namespace; every handler call belongs to a passing task that is not a refusal; a refusal is sent
+    only by a refusing CONNECT that passed; once a refusing CONNECT has passed, no handler call -/
+theorem gate_facts (m0 : Ns → Bool) (st : St) (hI : Inv m0 st) (n : Ns) :
+    (st.sh.marks n).length ≤ 1
+    ∧ ncalls st n + nref (st.sh.marks n) ≤ (st.sh.marks n).length
+    ∧ st.sh.refusals n ≤ nref (st.sh.marks n)
+    ∧ (Kind.refuse ∈ st.sh.marks n → st.sh.calls n = [] ∧ st.sh.marks n = [Kind.refuse]) := by
+  have hg := phase_gate (hI.phase n)
+  refine ⟨hg.1, hg.2.1, hg.2.2.1, fun hmem => inv_refused m0 st hI n ?_⟩
+  exact List.count_pos_iff.mpr hmem
+
+/-- once a refusal is recorded at the gate of `n` (after `s1`), no continuation `s2` of the schedule
+    adds a handler call for `n` -/
+theorem refused_sticky (a : Bool) (st0 : St) (s1 s2 : List Nat) (n : Ns)
+    (hI : Inv st0.sh.mem (run a st0 (s1 ++ s2)))
+    (h : 1 ≤ nref ((run a st0 s1).sh.marks n)) :
+    (run a st0 (s1 ++ s2)).sh.calls n = [] ∧ (run a st0 (s1 ++ s2)).sh.marks n = [Kind.refuse] := by
+  apply inv_refused _ _ hI n
+  have := run_nref_mono a s2 (run a st0 s1) n
+  rw [run_append]
+  omega
 
 end Sio.Sched
